@@ -331,6 +331,9 @@ def response_plan(doc: dict, man_ep: dict, op: dict, tok: docs.Tok, rng: random.
     if schema is None:
         x["expect"] = "untyped"
         return {"status": int(st), "headers": marker + [["content-type", mt]], "content": base64.b64encode(b"{}").decode()}, x
+    if isinstance(schema, dict) and docs.resolve(schema, comps).get("format") == "binary" and base != "application/octet-stream":
+        x["expect"] = "undefined"  # no defined meaning (Appendix E): asserted only for variant agreement and for not disturbing other responses
+        return {"status": int(st), "headers": marker + [["content-type", mt]], "content": base64.b64encode(b"raw-bytes").decode()}, x
     if base == "application/octet-stream":
         data = file_bytes(tok)
         x["expect"] = "bytes"
